@@ -176,7 +176,7 @@ pub fn absorb_obs(o: &mut Outcome, c: &Core) {
         o.count("loads_of_resaved_cells", n.game.c.loads_of_resaved);
         o.count("loads_of_stale_cells_executed_leniently", n.game.stale_loads);
     }
-    if c.scn.no_checksum {
+    if c.scn.no_checksum && c.scn.desync.is_none() {
         o.count("runs_saving_without_checksums", 1);
     }
     o.count("rollbacks", loads);
